@@ -67,8 +67,9 @@ pub fn replay(prop: &str, replay: &Value) -> Vec<Violation> {
         Some("sel") => selp::replay(replay),
         Some("sched") => schedp::replay(replay),
         Some("crash") => crashp::replay(replay),
-        Some("perm-history") => permp::replay(replay),
+        Some("perm-history") | Some("perm23") => permp::replay(replay),
         Some("sdk") => sdkp::replay(replay),
+        Some("own-journal") => journp::replay(replay),
         _ => Vec::new(),
     }
 }
